@@ -43,7 +43,7 @@ obligation as well, while moving a test into a helper method, re-ordering tests,
 | `.native_vlan`: `_parts[0:4] == ["switchport", "trunk", "native", "vlan"]` | `nativeVlanLoop` |
 | `.trunk_vlans_allowed`: the four `split()[0:5]` / `[0:4]` keyword tests, `^\s+switchport\s+trunk\s+allowed\s+vlan\s+(add\s+ / except\s+ / remove\s+)(\d[\d\-\,\s]*)$`, `…vlan\s+(all|none|\d[\d\-\,\s]*)$`, `"_nomatch_"`, `^\d[\d\-\,\s]*` | `vdictStep` (`vlanListGroup`, `allowedGroup`, `isVlanChar`), `applyVDict`; the vlan lists go through `CiscoRange(…, result_type=int)` = `Ccp.Range.parse` (C14's model — its separators are among the last conjuncts) |
 | `IOSRouteLine.is_object_for`: `line[0:9] == "ip route "` (and `line[0:11] == "ipv6 route "`, outside the model) | `isRouteLine` |
-| `IOSRouteLine.__init__`: `_RE_IP_ROUTE.search(self.text)` (`_RE_IPV6_ROUTE` for `ipv6` lines, outside the model) | `routeParse` |
+| `IOSRouteLine.__init__`: `_RE_IP_ROUTE.search(self.text)` (`_RE_IPV6_ROUTE` for `ipv6` lines is outside the model and deliberately left out of the scan set: `NOT_MODELLED` in `harness/rxscan.py`) | `routeParse` |
 | `_RE_IP_ROUTE` (VERBOSE) | `routeParse`, `routeBody`, `routeTail` and the slot consumers `slotKw`, `slotDigits`, `slotKwWord`, `slotKwDigits`, `slotIntf`, `slotAddr`, `quadPrefix` |
 
 Because `ordinal_list` and `trunk_vlans_allowed` are modelled through C15's `Ccp.Intf.parse` and C14's
@@ -158,8 +158,7 @@ theorem regexes_as_modelled :
        ("==", "ipv6 route ", "[0:11]")] ∧
     Gen.rxIos_IOSRouteLine_init =
       [("lit in", "ipv6", "[0:4]"),
-       ("re.search", "^ip\\s+route(?:\\s+(?:vrf\\s+(?P<vrf>\\S+)))?\\s+(?P<prefix>\\d+\\.\\d+\\.\\d+\\.\\d+)\\s+(?P<netmask>\\d+\\.\\d+\\.\\d+\\.\\d+)(?:\\s+(?P<nh_intf>[^\\d]\\S+))?(?:\\s+(?P<nh_addr>\\d+\\.\\d+\\.\\d+\\.\\d+))?(?:\\s+(?P<dhcp>dhcp))?(?:\\s+(?P<global>global))?(?:\\s+(?P<ad>\\d+))?(?:\\s+(?P<mcast>multicast))?(?:\\s+name\\s+(?P<name>\\S+))?(?:\\s+(?P<permanent>permanent))?(?:\\s+track\\s+(?P<track>\\d+))?(?:\\s+tag\\s+(?P<tag>\\d+))?", "VERBOSE"),
-       ("re.search", "^ipv6\\s+route(?:\\s+vrf\\s+(?P<vrf>\\S+))?(?:\\s+(?P<prefix>^(?!:::\\S+?$)(?P<addr1>(?P<opt1_1>[0-9a-fA-F]{1,4}(?::[0-9a-fA-F]{1,4}){7})|(?P<opt1_2>(?:[0-9a-fA-F]{1,4}:){1}(?::[0-9a-fA-F]{1,4}){1,6})|(?P<opt1_3>(?:[0-9a-fA-F]{1,4}:){2}(?::[0-9a-fA-F]{1,4}){1,5})|(?P<opt1_4>(?:[0-9a-fA-F]{1,4}:){3}(?::[0-9a-fA-F]{1,4}){1,4})|(?P<opt1_5>(?:[0-9a-fA-F]{1,4}:){4}(?::[0-9a-fA-F]{1,4}){1,3})|(?P<opt1_6>(?:[0-9a-fA-F]{1,4}:){5}(?::[0-9a-fA-F]{1,4}){1,2})|(?P<opt1_7>(?:[0-9a-fA-F]{1,4}:){6}(?::[0-9a-fA-F]{1,4}){1,1})|(?P<opt1_8>:(?::[0-9a-fA-F]{1,4}){1,7})|(?P<opt1_9>(?:[0-9a-fA-F]{1,4}:){1,7}:)|(?P<opt1_10>(?:::))))\\/(?P<masklength>\\d+))(?:(?:\\s+(?P<nh_addr1>^(?!:::\\S+?$)(?P<addr2>(?P<opt2_1>[0-9a-fA-F]{1,4}(?::[0-9a-fA-F]{1,4}){7})|(?P<opt2_2>(?:[0-9a-fA-F]{1,4}:){1}(?::[0-9a-fA-F]{1,4}){1,6})|(?P<opt2_3>(?:[0-9a-fA-F]{1,4}:){2}(?::[0-9a-fA-F]{1,4}){1,5})|(?P<opt2_4>(?:[0-9a-fA-F]{1,4}:){3}(?::[0-9a-fA-F]{1,4}){1,4})|(?P<opt2_5>(?:[0-9a-fA-F]{1,4}:){4}(?::[0-9a-fA-F]{1,4}){1,3})|(?P<opt2_6>(?:[0-9a-fA-F]{1,4}:){5}(?::[0-9a-fA-F]{1,4}){1,2})|(?P<opt2_7>(?:[0-9a-fA-F]{1,4}:){6}(?::[0-9a-fA-F]{1,4}){1,1})|(?P<opt2_8>:(?::[0-9a-fA-F]{1,4}){1,7})|(?P<opt2_9>(?:[0-9a-fA-F]{1,4}:){1,7}:)|(?P<opt2_10>(?:::)))))|(?:\\s+(?P<nh_intf>\\S+(?:\\s+\\d\\S*?\\/\\S+)?)(?:\\s+(?P<nh_addr2>^(?!:::\\S+?$)(?P<addr3>(?P<opt3_1>[0-9a-fA-F]{1,4}(?::[0-9a-fA-F]{1,4}){7})|(?P<opt3_2>(?:[0-9a-fA-F]{1,4}:){1}(?::[0-9a-fA-F]{1,4}){1,6})|(?P<opt3_3>(?:[0-9a-fA-F]{1,4}:){2}(?::[0-9a-fA-F]{1,4}){1,5})|(?P<opt3_4>(?:[0-9a-fA-F]{1,4}:){3}(?::[0-9a-fA-F]{1,4}){1,4})|(?P<opt3_5>(?:[0-9a-fA-F]{1,4}:){4}(?::[0-9a-fA-F]{1,4}){1,3})|(?P<opt3_6>(?:[0-9a-fA-F]{1,4}:){5}(?::[0-9a-fA-F]{1,4}){1,2})|(?P<opt3_7>(?:[0-9a-fA-F]{1,4}:){6}(?::[0-9a-fA-F]{1,4}){1,1})|(?P<opt3_8>:(?::[0-9a-fA-F]{1,4}){1,7})|(?P<opt3_9>(?:[0-9a-fA-F]{1,4}:){1,7}:)|(?P<opt3_10>(?:::)))))?))(?:\\s+nexthop-vrf\\s+(?P<nexthop_vrf>\\S+))?(?:\\s+(?P<ad>\\d+))?(?:\\s+(?:(?P<ucast>unicast)|(?P<mcast>multicast)))?(?:\\s+tag\\s+(?P<tag>\\d+))?(?:\\s+track\\s+(?P<track>\\d+))?(?:\\s+name\\s+(?P<name>\\S+))?", "VERBOSE")] ∧
+       ("re.search", "^ip\\s+route(?:\\s+(?:vrf\\s+(?P<vrf>\\S+)))?\\s+(?P<prefix>\\d+\\.\\d+\\.\\d+\\.\\d+)\\s+(?P<netmask>\\d+\\.\\d+\\.\\d+\\.\\d+)(?:\\s+(?P<nh_intf>[^\\d]\\S+))?(?:\\s+(?P<nh_addr>\\d+\\.\\d+\\.\\d+\\.\\d+))?(?:\\s+(?P<dhcp>dhcp))?(?:\\s+(?P<global>global))?(?:\\s+(?P<ad>\\d+))?(?:\\s+(?P<mcast>multicast))?(?:\\s+name\\s+(?P<name>\\S+))?(?:\\s+(?P<permanent>permanent))?(?:\\s+track\\s+(?P<track>\\d+))?(?:\\s+tag\\s+(?P<tag>\\d+))?", "VERBOSE")] ∧
     Gen.rxIntfParse =
       [("lit in", ",", ""),
        ("re.search", "(?P<interface_class>\\s+[a-zA-Z\\-]+)$", ""),
